@@ -177,16 +177,6 @@ func (t *tracer) call(c *ssa.Call, idx int, ctx []frame, proj []string) *Set {
 	args := cc.Args
 	union := func(vs ...ssa.Value) {
 		for _, a := range vs {
-			if elems, ok := varargsOf(a); ok && a != nil {
-				if _, isSlice := a.(*ssa.Slice); isSlice {
-					for _, el := range elems {
-						if el != nil {
-							out.AddAll(t.trace(el, ctx, proj))
-						}
-					}
-					continue
-				}
-			}
 			out.AddAll(t.trace(a, ctx, proj))
 		}
 	}
